@@ -271,7 +271,7 @@ def main(argv=None):
         from . import codeconst, gen as _gen
         cc = {"planned": 0, "run": 0, "no_size_drawn": 0, "stopped_early": False}
         try:
-            cplan = codeconst.plan(repo, a.tier, cap=getattr(prop, "CONST_CAP", 300000))
+            cplan = codeconst.plan(repo, a.tier, cap=getattr(prop, "CONST_CAP", 300000), cap_cells=getattr(prop, "CONST_CAP_CELLS", 1 << 23))
         except Exception:
             cplan = []
         t_cc = time.time()
